@@ -471,6 +471,11 @@ func checkClones(s step) *rp.Fail {
 	for i := range dc.Doors {
 		dc.Doors[i] = "changed"
 	}
+	// appending to the clone's door list must not write into spare capacity of the original's backing array
+	dc.Doors = append(dc.Doors, "appended-to-clone")
+	if full := dev.Doors[:cap(dev.Doors)]; len(full) > len(dev.Doors) && full[len(dev.Doors)] == "appended-to-clone" {
+		return rp.Failf("uhppote.Device.Clone/shares-storage", "appending to the clone's door names wrote into the original's backing array (len %d, cap %d)", len(dev.Doors), cap(dev.Doors))
+	}
 	for i, n := range dev.Doors {
 		if n != []string{"a", "b", "c", "d"}[i] {
 			return rp.Failf("uhppote.Device.Clone/shares-storage", "mutating the clone's door names changed the original: %v", dev.Doors)
